@@ -59,6 +59,30 @@ class Builtins:
         o.fields["msg"] = msg
         return o
 
+    def b_bytes(self, I, *a, **k):
+        """bytes(), bytes(b"..."), bytes(n), bytes(iterable of small ints); anything else (buffers, encodings) is not modelled"""
+        if k or len(a) > 1:
+            raise Unknown("bytes() with an encoding")
+        if not a:
+            return b""
+        x = a[0]
+        if isinstance(x, bytes):
+            return x
+        if isinstance(x, bool):
+            raise Unknown("bytes(bool)")
+        if isinstance(x, int):
+            if x < 0:
+                raise Raised(self.mkexc("ValueError", "negative count"))
+            return bytes(x)
+        if isinstance(x, str):
+            raise Raised(self.mkexc("TypeError", "string argument without an encoding"))
+        if isinstance(x, Seq) and not x.has_seg() and all(isinstance(i, int) and not isinstance(i, bool) for i in x.items):
+            try:
+                return bytes(x.items)
+            except ValueError as e:
+                raise Raised(self.mkexc("ValueError", str(e)))
+        raise Unknown("bytes() of a value that is not modelled as a buffer")
+
     # ------------------------------------------------------------------ type objects
     def _setup_types(self):
         def mk(name, ctor=None, bases=None):
@@ -73,7 +97,7 @@ class Builtins:
         mk("bool", self.b_bool, [self.types["int"]])
         mk("float", self.b_float)
         mk("str", self.b_str)
-        mk("bytes")
+        mk("bytes", self.b_bytes)
         mk("list", self.b_list)
         mk("tuple", self.b_tuple)
         mk("set", self.b_set)
@@ -467,6 +491,10 @@ class Builtins:
             return mkstr([a, b])
         if isinstance(a, bytes) and isinstance(b, bytes) and T is ast.Add:
             return a + b
+        if isinstance(a, bytes) and isinstance(b, int) and not isinstance(b, bool) and T is ast.Mult:
+            return a * b
+        if isinstance(a, int) and not isinstance(a, bool) and isinstance(b, bytes) and T is ast.Mult:
+            return a * b
         if isinstance(a, str) and isinstance(b, int) and T is ast.Mult:
             return a * b
         if isinstance(a, str) and T is ast.Mod:
